@@ -3,6 +3,7 @@ import Pearl.Props.C01
 import Pearl.Props.C04
 import Pearl.Proofs.AcctLemmas
 import Pearl.Proofs.AcctDriver
+import Pearl.Proofs.AcctHarm
 /-
 C15: accounting.  The count getters always match the operation history, every operation changes the
 total by exactly the number of records it appended, and blob ids are never reused.
@@ -507,6 +508,51 @@ example : AcctScript.idxLenReal 1000 2081 ((List.range 7).map fun i => ⟨i + 1,
   decide
 example : AcctScript.metaLenOf 4 0 = 89 ∧ AcctScript.metaLenOf 1 64 = 91 ∧ AcctScript.metaLenOf 1000 0 = 2081 := by
   decide
+
+/-! #### `next_blob_id` never decreases: full strength
+
+`nextId_monotone_partial` (L2) needs `nextId` = some held id + 1 (`nextId_monotone_false`: under `WF` alone it fails), and
+`run_nextId_monotone` discharges that for every L2 history — but an L2 history has no damage.  Once blob files can be
+quarantined the hypothesis fails on reachable storages, and the L2 `restart` (greatest HELD id + 1) would hand a
+quarantined id out again; the implementation counts the ids of `corrupted` (`reserve_old_corrupted_blob_ids`), and so
+does `Acct.restart`.  On the directory-level model monotonicity holds for every history without any hypothesis. -/
+
+/-- full strength: along every directory-level history (restarts, quarantines, skipped blobs), `next_blob_id` never
+    decreases -/
+theorem acct_next_blob_id_monotone (c : Acct.Cfg) (allowDup : Bool) (ops more : List Acct.AOp) :
+    Acct.nextBlobId (Acct.run c allowDup ops) ≤ Acct.nextBlobId (Acct.run c allowDup (ops ++ more)) := by
+  have : Acct.run c allowDup (ops ++ more) = Acct.runFrom c (Acct.run c allowDup ops) more :=
+    Acct.runFrom_append c _ ops more
+  rw [this]
+  exact Acct.runFrom_nextId_le (Acct.inv_run c allowDup ops) more
+
+/-- … and exactly by the number of blob files the operation creates -/
+theorem acct_next_blob_id_step (c : Acct.Cfg) (allowDup : Bool) (ops : List Acct.AOp) (op : Acct.AOp) :
+    Acct.nextBlobId (Acct.run c allowDup (ops ++ [op])) =
+      Acct.nextBlobId (Acct.run c allowDup ops) + (Acct.stepC c (Acct.run c allowDup ops) op).created.length := by
+  have h := (Acct.stepC_fileStep (Acct.inv_run c allowDup ops) op).next
+  rw [Acct.stepC_st] at h
+  have : Acct.run c allowDup (ops ++ [op]) = Acct.step c (Acct.run c allowDup ops) op :=
+    Acct.runFrom_append c _ ops [op]
+  rw [this]; exact h
+
+/-- why the hypothesis of `nextId_monotone_partial` cannot be dropped for the L2 store of a storage that has seen a
+    quarantine: blob 1 (the highest) is quarantined, the store holds blob 0 only with `nextId` = 2 — well-formed, not
+    tight — and the L2 `restart` would lower `nextId` to 1, the id of the quarantined file; the directory-level
+    restart keeps 2 -/
+theorem nextId_tightness_lost_by_quarantine :
+    let s := Acct.run Acct.Demo.cfg true [Acct.Demo.w 1 1, .closeActive, Acct.Demo.w 2 2, .restart false false [1]]
+    s.store.WF ∧ s.dir.corrupted = [1] ∧ s.store.nextId = 2 ∧ s.store.blobs.map (·.id) = [0] ∧
+      ¬ (∃ b ∈ s.store.blobs, s.store.nextId = b.id + 1) ∧
+      (s.store.apply (.restart false)).nextId = 1 ∧
+      Acct.nextBlobId (Acct.step Acct.Demo.cfg s (.restart false false [])) = 2 := by
+  refine ⟨(Acct.inv_run _ _ _).wf, ?_⟩
+  decide
+
+example := acct_next_blob_id_monotone Acct.Demo.cfg true Acct.Demo.ops [.restart false true [0], .restart true false [1]]
+example : Acct.nextBlobId (Acct.run Acct.Demo.cfg true Acct.Demo.ops) = 2 ∧
+    Acct.nextBlobId (Acct.run Acct.Demo.cfg true
+      (Acct.Demo.ops ++ [.restart false true [0], .restart true false [1], .restart true false []])) = 3 := by decide
 
 /-
 NOT YET PROVED (C15, file part):
